@@ -279,8 +279,9 @@ def cond_key(c):
 
 
 class WInterp:
-    def __init__(self, fn, env, record_enum):
+    def __init__(self, fn, env, record_enum, conc=None):
         self.fn = fn
+        self.conc = conc or {}      # variable name -> concrete integer (enumerated by the caller)
         self.env = env
         self.rec = record_enum      # value -> name
         self.scal = {}              # key -> (known value, unknown-bit mask) or None
@@ -309,6 +310,8 @@ class WInterp:
         if e.k == 'DeclRefExpr':
             if e.dk == 'enum':
                 return (e.cv, 0)
+            if e.n in self.conc:
+                return (self.conc[e.n], 0)
             v = self.scal.get(lvalue_key(e))
             return v if v is not None else (0, 0xFF)
         if e.k == 'BinaryOperator':
@@ -364,6 +367,11 @@ class WInterp:
             self.zero[key] = 'Z' if (bv == eq) else 'NZ'
             return bv
         bv = self.boolval(c)
+        if bv is None and c.k == 'BinaryOperator' and c.op in ('<', '>', '<=', '>=', '==', '!=') and self.conc:
+            a, b = self.bits(c.child('lhs')), self.bits(c.child('rhs'))
+            if a[1] == 0 and b[1] == 0:
+                import operator as op_
+                bv = {'<': op_.lt, '>': op_.gt, '<=': op_.le, '>=': op_.ge, '==': op_.eq, '!=': op_.ne}[c.op](a[0], b[0])
         if bv is None:
             key = cond_key(c)
             if key not in self.env:
@@ -492,7 +500,7 @@ class WInterp:
                     self.ops.append((kind, '', c))
 
 
-def interpret_writer(fn, region, record_enum, max_atoms=14):
+def interpret_writer(fn, region, record_enum, max_atoms=14, conc=None):
     atoms = []
     results = []
     envs = [{}]
@@ -503,7 +511,7 @@ def interpret_writer(fn, region, record_enum, max_atoms=14):
         if key in done:
             continue
         done.add(key)
-        it = WInterp(fn, env, record_enum)
+        it = WInterp(fn, env, record_enum, conc)
         try:
             it.run(region)
             results.append((dict(env), it.ops))
